@@ -401,7 +401,14 @@ _VAL_EXTRA = None
 
 def _validate_part(part):
     off, traces = part
-    r = tlc.validate_traces("TraceC02", "TraceC02.cfg", traces, extra_files=_VAL_EXTRA, timeout=1500, chunk=len(traces) + 1)
+    os.environ.setdefault("VERIF_TLC_XMX", "3g")      # several validation JVMs run side by side: keep each one small
+    try:
+        r = tlc.validate_traces("TraceC02", "TraceC02.cfg", traces, extra_files=_VAL_EXTRA, timeout=1500, chunk=len(traces) + 1)
+    except tlc.TLCError as e:
+        if "timeout" in str(e):
+            raise
+        # a JVM killed from outside (the sandbox's OOM killer was observed doing that): one more attempt, same input
+        r = tlc.validate_traces("TraceC02", "TraceC02.cfg", traces, extra_files=_VAL_EXTRA, timeout=1500, chunk=len(traces) + 1)
     for rj in r["rejected"]:
         rj["index"] += off
         rj.pop("trace", None)
@@ -419,7 +426,12 @@ def validate(traces, consts_text, chunk=None):
     slim = [{"id": t["id"], "init": t["init"], "events": t["events"]} for t in traces]
     parts = [(o, slim[o:o + chunk]) for o in range(0, len(slim), chunk)]
     if len(parts) <= 1:
-        rs = [_validate_part(p) for p in parts]
+        xmx = os.environ.get("VERIF_TLC_XMX")
+        try:
+            rs = [_validate_part(p) for p in parts]
+        finally:                                   # (in-process call: do not leak the small heap to the model-checking runs)
+            if xmx is None:
+                os.environ.pop("VERIF_TLC_XMX", None)
     else:
         import multiprocessing as mp
         procs = min(len(parts), nproc)
@@ -468,7 +480,7 @@ def report(chk, traces, tv, cfgname, tier, lists):
     chk.note_drift([dict(d, key=_case_key(traces[d["index"]])) for d in tv["drift"]])
 
 
-SLICE = 100000       # cases replayed and validated per round (bounds memory in the thorough tier)
+SLICE = 50000        # cases replayed and validated per round (bounds memory in the thorough tier)
 
 
 def lines_run(chk, name, c, shipped, conf_exprs, waptop, raises, tier, reps, only_case=None):
